@@ -35,6 +35,12 @@
                                 as a condition, returned, as an index, as an argument, and chained c = d = x
      wrap0                      (T)(x op y) with unsigned x, y whose result wraps to exactly 0 (or just past it) in the operand type
      fcmp                       floating operands (NaN, infinities, -0, ...) of < > <= >= == != && || ! ?: and casts to integer types
+     fconv                      conversions between integer and floating types inside a constant expression, at the precision
+                                boundaries of float / double / long double (2^24, 2^53, 2^63, 2^64 +- the ties): (c)(b)x, (c)(F2)(b)x,
+                                (c)-(b)x, (c)(1 ? (b)x : (F2)0), (c)(1 ? x : (b)0), (c)((b)x +- (F2)y), (b)x rel (F2)y, (b)x rel y, and
+                                finit: a static object of type F2 initialised with (b)x (its exact value is emitted)
+     vla                        array bounds that are not (all) constant: a call, `(f(), k)`, `(k2, k)` alone, under an operator, a cast,
+                                in either arm of ?: and right of && || with an int or floating condition - value and number of calls
      ptr                        pointers into an array of element size 1,2,4,8,12,24: p + i, i + p, p - i with i
                                 of every integer type (value of i, not its conversion: unsigned int >= 2^31
                                 moves forward), p - q (long), p < q ... (int); values are element indexes    *)
@@ -99,6 +105,28 @@ KS == StrOf(KT)
 SizeSeq == <<"1", "2", "4", "8", "12", "24">>
 SizeOfTag(s) == CASE s = "1" -> 1 [] s = "2" -> 2 [] s = "4" -> 4 [] s = "8" -> 8 [] s = "12" -> 12 [] OTHER -> 24
 PtrSeq == <<"padd", "pradd", "psub", "pdiff", "plt", "ple", "pgt", "pge", "peq", "pne">>
+(* fconv: integers around the precision boundaries (ties, neighbours of ties, the extremes of each type) *)
+P2m(kk, d) == Sub(Pow2(kk), FromInt(d))
+P2p(kk, d) == Add(Pow2(kk), FromInt(d))
+FPos == <<FromInt(0), FromInt(1), FromInt(3), P2m(24, 1), Pow2(24), P2p(24, 1), P2p(24, 2), P2p(24, 3),
+          P2p(25, 1), P2p(25, 2), P2p(25, 3), P2p(25, 5), P2p(25, 6), FromInt(1234567891),
+          P2m(31, 192), P2m(31, 129), P2m(31, 128), P2m(31, 65), P2m(31, 64), P2m(31, 1), Pow2(31),
+          P2m(32, 257), P2m(32, 256), P2m(32, 129), P2m(32, 128), P2m(32, 1),
+          P2m(53, 1), Pow2(53), P2p(53, 1), P2p(53, 2), P2p(53, 3), P2p(54, 1), P2p(54, 2), P2p(54, 3), P2p(54, 6),
+          Add(Mul(FromInt(123456789), FromInt(1000000007)), FromInt(12345)),
+          Sub(Pow2(63), Add(Pow2(39), Pow2(38))), Sub(Pow2(63), Pow2(38)), P2m(63, 1025), P2m(63, 1024), P2m(63, 513), P2m(63, 512), P2m(63, 1),
+          Pow2(63), P2p(63, 1), P2p(63, 1024), P2p(63, 3072),
+          Sub(Pow2(64), Pow2(40)), Sub(Pow2(64), Pow2(39)), P2m(64, 2049), P2m(64, 1025), P2m(64, 1024), P2m(64, 1)>>
+FCand == FPos \o FoldLeft(LAMBDA acc, zz : IF IsZero(zz) THEN acc ELSE Append(acc, Neg(zz)), <<>>, FPos) \o <<Neg(Pow2(31)), Neg(Pow2(63))>>
+FSrcG == {"ushort", "int", "uint", "long", "ulong"}
+FBT == FoldLeft(LAMBDA f, t : (t :> SelectSeq(FCand, LAMBDA zz : InRange(zz, t))) @@ f, <<>>, <<"ushort", "int", "uint", "long", "ulong">>)
+VlaK == <<1, 3, 200>>
+VlaK2 == <<2, 5>>
+NCKinds == {"call", "comma", "commac"}
+VlaTypes == {"int", "long", "uchar"}
+FvNames == {FV[n].n : n \in 1..Len(FV)}
+FvByName(nm) == FV[CHOOSE n \in 1..Len(FV) : FV[n].n = nm]
+ASSUME TLCSet(19, FBT)
 ASSUME TLCSet(11, BndT) /\ TLCSet(12, BndS) /\ TLCSet(13, FewT) /\ TLCSet(14, FewS)
        /\ TLCSet(15, CCT) /\ TLCSet(16, CCS) /\ TLCSet(17, KT) /\ TLCSet(18, KS)
 
@@ -123,6 +151,17 @@ Cases ==
   \cup ({"wrap0"} \X {"add", "mul", "shl"} \X N1 \X {"uint", "ulong"} \X Types \X N1)
   \cup ({"fcmp"} \X {"lt", "gt", "le", "ge", "eq", "ne", "land", "lor", "lnot", "cond"} \X N1 \X {"float", "double", "ldouble"} \X N1 \X N1)
   \cup ({"fcmp"} \X {"toint"} \X N1 \X {"float", "double", "ldouble"} \X Types \X N1)
+  \cup ({"fconv"} \X {"cast", "neg", "mixed"} \X N1 \X FSrcG \X FTypes \X Types)
+  \cup ({"fconv"} \X {"chain", "cond"} \X FTypes \X FSrcG \X FTypes \X Types)
+  \cup ({"fconv"} \X {"add", "sub"} \X FTypes \X FSrcG \X FTypes \X {"bool", "long", "ulong"})
+  \cup ({"fconv"} \X RelOps \X (FTypes \cup N1) \X FSrcG \X FTypes \X N1)
+  \cup ({"fconv"} \X {"finit"} \X FTypes \X FSrcG \X FTypes \X N1)
+  \cup ({"vla"} \X {"top"} \X N1 \X NCKinds \X N1 \X VlaTypes)
+  \cup ({"vla"} \X {"binl", "binr"} \X {"add", "sub", "mul", "bor", "shl", "lt"} \X NCKinds \X N1 \X VlaTypes)
+  \cup ({"vla"} \X {"un"} \X {"pos", "long", "uchar", "bool"} \X NCKinds \X N1 \X VlaTypes)
+  \cup ({"vla"} \X {"condt", "conde", "land", "lor"} \X {"int"} \X NCKinds \X {"0", "1"} \X VlaTypes)
+  \cup ({"vla"} \X {"condt", "conde", "land", "lor"} \X FTypes \X NCKinds \X FvNames \X {"int"})
+  \cup ({"vla"} \X {"fvcast"} \X FTypes \X N1 \X FvNames \X (VlaTypes \cup {"bool"}))
   \cup ({"ptr"} \X PtrArithOps \X {"1", "2", "4", "8", "12", "24"} \X Types \X N1 \X N1)
   \cup ({"ptr"} \X PtrRelOps \X {"1", "2", "4", "8", "12", "24"} \X N1 \X N1 \X N1)
 
@@ -139,19 +178,23 @@ WrapPair(t, o, n) ==
     [] o = "mul" -> (IF n = 1 THEN <<q, q>> ELSE IF n = 2 THEN <<h, FromInt(2)>> ELSE <<Add(h, One), FromInt(2)>>)
     [] OTHER     -> (IF n = 1 THEN <<h, One>> ELSE IF n = 2 THEN <<q, FromInt(w \div 2)>> ELSE <<Add(h, One), One>>)
 
-NI == IF fam = "asgv" THEN Len(TLCGet(15)[a])
+NI == IF fam = "fconv" THEN Len(TLCGet(19)[a])
+      ELSE IF fam = "vla" THEN (IF op = "fvcast" THEN 1 ELSE Len(VlaK))
+      ELSE IF fam = "asgv" THEN Len(TLCGet(15)[a])
       ELSE IF fam = "wrap0" THEN 3
       ELSE IF fam = "fcmp" THEN Len(FV)
       ELSE IF fam = "ptr" /\ a = "-" THEN Len(KT)
       ELSE IF fam = "case" THEN 2                            \* the two controlling values
       ELSE IF fam = "enum" THEN Len(TLCGet(11)["int"])       \* value of the outer / first enumerator
       ELSE NV(a)
-NJ == IF fam \in {"asgv", "wrap0"} THEN 1
+NJ == IF fam = "fconv" THEN (IF op \in RelOps \cup {"add", "sub"} THEN 3 ELSE 1)
+      ELSE IF fam = "vla" THEN (IF op \in {"top", "un", "fvcast"} THEN 1 ELSE Len(VlaK2))
+      ELSE IF fam \in {"asgv", "wrap0"} THEN 1
       ELSE IF fam = "fcmp" THEN (IF op \in {"lnot", "cond", "toint"} THEN 1 ELSE Len(FV))
       ELSE IF fam = "ptr" THEN Len(KT)
       ELSE IF fam = "enum" THEN Len(TLCGet(13)[a])
       ELSE IF CCFam \/ fam \in {"un", "cast", "init", "arg", "ret", "assign", "test", "incdec", "aincdec"} THEN 1 ELSE NV(b)
-NK == IF CCFam \/ fam \in {"ptr", "case", "enum", "asgv", "wrap0", "fcmp"} THEN 1 ELSE NV(c)
+NK == IF CCFam \/ fam \in {"ptr", "case", "enum", "asgv", "wrap0", "fcmp", "fconv", "vla"} THEN 1 ELSE NV(c)
 
 OIdxOf(o) == IF \E n \in 1..Len(BinSeq) : BinSeq[n] = o THEN CHOOSE n \in 1..Len(BinSeq) : BinSeq[n] = o
              ELSE IF \E n \in 1..4 : UnSeq[n] = o THEN CHOOSE n \in 1..4 : UnSeq[n] = o
@@ -170,7 +213,11 @@ CasePicked(cs) == cs[1] \in {"d2l", "d2r"} =>
                     /\ ((CaseHash(cs) \div D2Base) + Seed) % D2Stride = 0
 (* the small families (unary, casts, the conversion contexts, ++/--) are always enumerated completely;
    depth 2 is thinned by whole cases already, so its value choices are thinned 8 times less *)
-VStride == IF fam \in {"un", "cast", "init", "arg", "ret", "assign", "test", "incdec", "aincdec", "cc", "wrap0", "fcmp"} THEN 1
+VStride == IF fam = "vla" THEN 1
+           ELSE IF fam = "fconv" THEN (IF op \in {"cast", "neg", "mixed"} THEN (IF Stride < 32 THEN 1 ELSE Stride \div 32)
+                                       ELSE IF op \in {"finit", "chain", "cond"} THEN (IF Stride < 16 THEN 1 ELSE Stride \div 16)
+                                       ELSE (IF Stride < 8 THEN 1 ELSE Stride \div 8))
+           ELSE IF fam \in {"un", "cast", "init", "arg", "ret", "assign", "test", "incdec", "aincdec", "cc", "wrap0", "fcmp"} THEN 1
            ELSE IF fam = "asgv" THEN (IF op # "chain" \/ Stride < 8 THEN 1 ELSE 4)
            ELSE IF fam \in {"opasg", "aopasg"} THEN (IF Stride < 16 THEN 1 ELSE Stride \div 16)
            ELSE IF fam \in {"case", "enum"} THEN (IF Stride < 8 THEN 1 ELSE Stride \div 8)
@@ -178,9 +225,11 @@ VStride == IF fam \in {"un", "cast", "init", "arg", "ret", "assign", "test", "in
            ELSE IF fam \in {"ccinit", "ccarg", "ccret", "ccassign"} THEN (IF Stride < 8 THEN 1 ELSE 8)
            ELSE IF fam \in {"d2l", "d2r"} /\ Stride >= 8 THEN Stride \div 8 ELSE Stride
 Pick(ii, jj, kk) == LET h == hb + ii * 31 + jj * 37 + kk * 41 IN
-                    IF VStride = 1 /\ fam \notin {"bin", "cond", "opasg", "d2l", "d2r"} THEN TRUE
+                    IF VStride = 1 /\ fam \notin {"bin", "cond", "opasg", "d2l", "d2r", "fconv"} THEN TRUE
                     ELSE IF fam \in {"ptr", "ccinit", "ccarg", "ccret", "ccassign", "aopasg", "case", "enum"} THEN (h + Seed) % VStride = 0
                     ELSE IF fam = "asgv" THEN (h + Seed) % VStride = 0
+                    ELSE IF fam = "fconv" THEN (IF op = "finit" THEN (h + Seed) % VStride = 0
+                                                ELSE h % 8 = 0 /\ ((h \div 8) + Seed) % VStride = 0)     \* D: value choices with hash % 8 = 0
                     ELSE h % Base = 0 /\ ((h \div Base) + Seed) % VStride = 0
 
 LeafJ(t, n) == [k |-> "leaf", t |-> t, v |-> VS(t)[n]]
@@ -294,7 +343,65 @@ EmitFcmp(ii, jj) ==
   IN r.ok /\ CSVWrite("%1$s", <<ToJson([f |-> "fcmp", op |-> op, tf |-> a, td |-> b, x |-> x.n, y |-> y.n,
                                           t |-> r.t, sz |-> StoreW(r.t) \div 8, sg |-> Sg(r.t),
                                           u |-> ToDecU(64, r.v), s |-> ToDec(r.v), dz |-> FALSE])>>, IOEnv.OUT)
+(* a Level A tree as JSON (leaf values as decimal strings) *)
+RECURSIVE TJ(_)
+TJ(e) ==
+  CASE e.k = "leaf" -> [k |-> "leaf", t |-> e.t, v |-> ToDec(e.v)]
+    [] e.k = "call" -> [k |-> "call", t |-> e.t, v |-> ToDec(e.v)]
+    [] e.k = "fv"   -> [k |-> "fv", t |-> e.t, n |-> e.x.n]
+    [] e.k = "un"   -> [k |-> "un", op |-> e.op, a |-> TJ(e.a)]
+    [] e.k = "cast" -> [k |-> "cast", t |-> e.t, a |-> TJ(e.a)]
+    [] e.k = "comma" -> [k |-> "comma", a |-> TJ(e.a), b |-> TJ(e.b)]
+    [] e.k = "bin"  -> [k |-> "bin", op |-> e.op, a |-> TJ(e.a), b |-> TJ(e.b)]
+    [] OTHER        -> [k |-> "cond", c |-> TJ(e.c), a |-> TJ(e.a), b |-> TJ(e.b)]
+(* fconv: x = the ii-th boundary value of type a; y = x, x + 1, x - 1 *)
+FconvTree(ii, jj) ==
+  LET X  == TLCGet(19)[a][ii]
+      Y  == IF jj = 1 THEN X ELSE IF jj = 2 THEN Add(X, One) ELSE Sub(X, One)
+      fx == CastE(b, Leaf(a, X))
+      one == Leaf("int", One)   zero == Leaf("int", Zero)
+  IN CASE op = "cast"  -> CastE(c, fx)
+       [] op = "neg"   -> CastE(c, UnE("neg", fx))
+       [] op = "mixed" -> CastE(c, CondE(one, Leaf(a, X), CastE(b, zero)))
+       [] op = "chain" -> CastE(c, CastE(op2, fx))
+       [] op = "cond"  -> CastE(c, CondE(one, fx, CastE(op2, zero)))
+       [] op \in {"add", "sub"} -> CastE(c, BinE(op, fx, CastE(op2, Leaf(a, Y))))
+       [] op = "finit" -> CastE(op2, fx)
+       [] OTHER        -> BinE(op, fx, IF op2 = "-" THEN Leaf(a, Y) ELSE CastE(op2, Leaf(a, Y)))
+EmitFconv(ii, jj) ==
+  LET X == TLCGet(19)[a][ii]
+      Y == IF jj = 1 THEN X ELSE IF jj = 2 THEN Add(X, One) ELSE Sub(X, One)
+  IN InRange(Y, a)
+     /\ With(FconvTree(ii, jj), LAMBDA tr : With(Ev(tr), LAMBDA r :
+           r.ok /\ CSVWrite("%1$s", <<ToJson([f |-> "fconv", op |-> op, e |-> TJ(tr), ice |-> FALSE,
+                                                t |-> r.t, sz |-> StoreW(r.t) \div 8, sg |-> Sg(r.t),
+                                                u |-> ToDecU(64, r.v), s |-> ToDec(r.v), dz |-> FALSE])>>, IOEnv.OUT)))
+(* vla: NC = the non-constant operand, k = VlaK[ii] : c, k2 = VlaK2[jj] : c, condition b of type op2 *)
+VlaTree(ii, jj) ==
+  LET kx  == FromInt(VlaK[ii])   ky == FromInt(VlaK2[jj])
+      nc  == CASE a = "call" -> CallE("int", kx)
+               [] a = "comma" -> CommaE(CallE("int", Zero), Leaf(c, kx))
+               [] OTHER -> CommaE(Leaf("int", ky), Leaf(c, kx))
+      cnd == IF op2 = "int" THEN Leaf("int", IF b = "1" THEN One ELSE Zero) ELSE FvE(op2, FvByName(b))
+  IN CASE op = "top" -> nc
+       [] op = "fvcast" -> CastE(c, cnd)
+       [] op = "binl" -> BinE(op2, nc, Leaf(c, ky))
+       [] op = "binr" -> BinE(op2, Leaf(c, ky), nc)
+       [] op = "un" -> IF op2 \in UnOps THEN UnE(op2, nc) ELSE CastE(op2, nc)
+       [] op = "condt" -> CondE(cnd, nc, Leaf(c, ky))
+       [] op = "conde" -> CondE(cnd, Leaf(c, ky), nc)
+       [] op = "land" -> BinE("add", Leaf(c, ky), BinE("land", cnd, nc))
+       [] OTHER -> BinE("add", Leaf(c, ky), BinE("lor", cnd, nc))
+EmitVla(ii, jj) ==
+  With(VlaTree(ii, jj), LAMBDA tr : With(Ev(tr), LAMBDA r :
+    r.ok /\ ~Lt(r.v, One) /\ Lt(r.v, FromInt(2001))
+    /\ ~(op = "un" /\ op2 = "bool" /\ a = "commac")          \* `char w[(_Bool)(2, 3)]`: gcc 12 dies with an internal error (no oracle)
+    /\ (op2 \in FTypes /\ op # "fvcast" => ii = 2)            \* floating conditions: one value of k
+    /\ CSVWrite("%1$s", <<ToJson([f |-> "vla", op |-> op, op2 |-> op2, nk |-> a, cnd |-> b, tc |-> c, e |-> TJ(tr),
+                                   s |-> ToDec(r.v), calls |-> Effects(tr), ice |-> IsICE(tr), dz |-> FALSE])>>, IOEnv.OUT)))
 Emit(ii, jj, kk) == IF fam = "ptr" THEN EmitPtr(ii, jj)
+                    ELSE IF fam = "fconv" THEN EmitFconv(ii, jj)
+                    ELSE IF fam = "vla" THEN EmitVla(ii, jj)
                     ELSE IF fam = "asgv" THEN EmitAsgv(ii)
                     ELSE IF fam = "fcmp" THEN EmitFcmp(ii, jj)
                     ELSE IF fam = "case" THEN EmitCase(ii, jj)
